@@ -74,11 +74,11 @@ Proof. apply sort_uniq_inc. Qed.
 
 (* ---------------------------------------------------------------- perfect candidates *)
 
-Lemma try_admit_outer_perfect outer base :
+Lemma try_take_outer_perfect outer base :
   0 < outer ->
-  forall t, In t (fst (try_admit outer (base, []) outer)) <-> In t base \/ t = outer.
+  forall t, In t (fst (try_take outer (base, []) outer)) <-> In t base \/ t = outer.
 Proof.
-  intros Ho t. unfold try_admit.
+  intros Ho t. unfold try_take.
   assert (outer <? outer = false) as -> by lia. simpl.
   destruct (memZ outer base) eqn:E; simpl.
   - apply memZ_In in E. split; [tauto|]. intros [H| ->]; assumption.
@@ -92,7 +92,7 @@ Lemma perfect_In outer inner t :
   (In t (factor_sizes outer false inner) <->
    (exists f, 0 < f /\ (f | cdiv outer inner) /\ t = f * inner) \/ t = outer).
 Proof.
-  intros Hi Ho. unfold factor_sizes. rewrite sort_uniq_In, try_admit_outer_perfect by assumption.
+  intros Hi Ho. unfold factor_sizes. rewrite sort_uniq_In, try_take_outer_perfect by assumption.
   rewrite in_map_iff.
   assert (Hc : 0 < cdiv outer inner) by (pose proof (cdiv_pos outer inner); lia).
   split; (intros [H|H]; [left|right; assumption]).
@@ -122,10 +122,10 @@ Definition adm_inv (outer : Z) (st : list Z * list Z) : Prop :=
   (forall t, In t (fst st) -> exists c, In c (snd st) /\ t = cdiv outer c) /\
   (forall c, In c (snd st) -> In (cdiv outer c) (fst st) /\ 1 <= c <= outer).
 
-Lemma try_admit_inv outer st n :
-  0 < outer -> 0 < n -> adm_inv outer st -> adm_inv outer (try_admit outer st n).
+Lemma try_take_inv outer st n :
+  0 < outer -> 0 < n -> adm_inv outer st -> adm_inv outer (try_take outer st n).
 Proof.
-  intros Ho Hn [I1 I2]. destruct st as [fs ns]. unfold try_admit.
+  intros Ho Hn [I1 I2]. destruct st as [fs ns]. unfold try_take.
   destruct ((outer <? n) || memZ n fs) eqn:E1; [split; assumption|].
   destruct (memZ (cdiv outer n) ns) eqn:E2; [split; assumption|].
   apply orb_false_iff in E1. destruct E1 as [E1 _].
@@ -136,16 +136,16 @@ Proof.
   - intros c [<-|Hc1]; [tauto|]. destruct (I2 c Hc1). tauto.
 Qed.
 
-Lemma try_admit_mono outer st n t : In t (fst st) -> In t (fst (try_admit outer st n)).
+Lemma try_take_mono outer st n t : In t (fst st) -> In t (fst (try_take outer st n)).
 Proof.
-  destruct st as [fs ns]. unfold try_admit. intros H.
+  destruct st as [fs ns]. unfold try_take. intros H.
   destruct ((outer <? n) || memZ n fs); [assumption|].
   destruct (memZ (cdiv outer n) ns); [assumption|]. simpl. right; assumption.
 Qed.
 
-Lemma try_admit_mono2 outer st n c : In c (snd st) -> In c (snd (try_admit outer st n)).
+Lemma try_take_mono2 outer st n c : In c (snd st) -> In c (snd (try_take outer st n)).
 Proof.
-  destruct st as [fs ns]. unfold try_admit. intros H.
+  destruct st as [fs ns]. unfold try_take. intros H.
   destruct ((outer <? n) || memZ n fs); [assumption|].
   destruct (memZ (cdiv outer n) ns); [assumption|]. simpl. right; assumption.
 Qed.
@@ -169,11 +169,11 @@ Proof.
 Qed.
 
 (* after admitting n (<= outer), the smallest shape for n's tile count is present *)
-Lemma try_admit_has outer st n :
+Lemma try_take_has outer st n :
   0 < outer -> 0 < n -> n <= outer -> adm_inv outer st ->
-  In (cdiv outer (cdiv outer n)) (fst (try_admit outer st n)).
+  In (cdiv outer (cdiv outer n)) (fst (try_take outer st n)).
 Proof.
-  intros Ho Hn Hle [I1 I2]. destruct st as [fs ns]. unfold try_admit.
+  intros Ho Hn Hle [I1 I2]. destruct st as [fs ns]. unfold try_take.
   assert (outer <? n = false) as -> by lia. simpl.
   destruct (memZ n fs) eqn:E1.
   - apply memZ_In in E1. destruct (I1 n E1) as [c [Hc ->]]. simpl in *.
@@ -185,29 +185,29 @@ Proof.
 Qed.
 
 Lemma fold_admit_inv outer ns : 0 < outer -> (forall n, In n ns -> 0 < n) ->
-  forall st, adm_inv outer st -> adm_inv outer (fold_left (try_admit outer) ns st).
+  forall st, adm_inv outer st -> adm_inv outer (fold_left (try_take outer) ns st).
 Proof.
   intros Ho. induction ns as [|n ns IH]; intros Hpos st Hst; simpl; [assumption|].
   apply IH; [intros; apply Hpos; right; assumption|].
-  apply try_admit_inv; [assumption|apply Hpos; left; reflexivity|assumption].
+  apply try_take_inv; [assumption|apply Hpos; left; reflexivity|assumption].
 Qed.
 
-Lemma fold_admit_mono outer ns : forall st t, In t (fst st) -> In t (fst (fold_left (try_admit outer) ns st)).
+Lemma fold_admit_mono outer ns : forall st t, In t (fst st) -> In t (fst (fold_left (try_take outer) ns st)).
 Proof.
   induction ns as [|n ns IH]; intros st t H; simpl; [assumption|].
-  apply IH. apply try_admit_mono. assumption.
+  apply IH. apply try_take_mono. assumption.
 Qed.
 
 Lemma fold_admit_has outer ns : 0 < outer -> (forall n, In n ns -> 0 < n) ->
   forall st, adm_inv outer st ->
   forall m, In m ns -> m <= outer ->
-  In (cdiv outer (cdiv outer m)) (fst (fold_left (try_admit outer) ns st)).
+  In (cdiv outer (cdiv outer m)) (fst (fold_left (try_take outer) ns st)).
 Proof.
   intros Ho. induction ns as [|n ns IH]; intros Hpos st Hst m Hm Hle; [destruct Hm|].
   simpl. destruct Hm as [->|Hm].
-  - apply fold_admit_mono. apply try_admit_has; try assumption. apply Hpos; left; reflexivity.
+  - apply fold_admit_mono. apply try_take_has; try assumption. apply Hpos; left; reflexivity.
   - apply IH; try assumption; [intros; apply Hpos; right; assumption|].
-    apply try_admit_inv; [assumption|apply Hpos; left; reflexivity|assumption].
+    apply try_take_inv; [assumption|apply Hpos; left; reflexivity|assumption].
 Qed.
 
 Lemma adm_inv_init outer : adm_inv outer ([], []).
@@ -216,13 +216,13 @@ Proof. split; simpl; intros ? []. Qed.
 Lemma imperfect_state_inv outer inner : 0 < inner -> 0 < outer ->
   let ns := map (fun j => j * inner) (range1 (Z.to_nat (outer / inner))) in
   (forall n, In n ns -> 0 < n) /\
-  adm_inv outer (try_admit outer (fold_left (try_admit outer) ns ([], [])) outer).
+  adm_inv outer (try_take outer (fold_left (try_take outer) ns ([], [])) outer).
 Proof.
   intros Hi Ho ns.
   assert (Hpos : forall n, In n ns -> 0 < n).
   { intros n Hn. apply in_map_iff in Hn. destruct Hn as [j [<- Hj]]. apply range1_In in Hj. nia. }
   split; [assumption|].
-  apply try_admit_inv; [assumption|assumption|].
+  apply try_take_inv; [assumption|assumption|].
   apply fold_admit_inv; [assumption|assumption|apply adm_inv_init].
 Qed.
 
@@ -240,7 +240,7 @@ Lemma imperfect_complete outer inner m : 0 < inner -> 0 < outer ->
   In (cdiv outer (cdiv outer m)) (factor_sizes outer true inner).
 Proof.
   intros Hi Ho Hm [j Hj]. unfold factor_sizes. rewrite sort_uniq_In.
-  apply try_admit_mono.
+  apply try_take_mono.
   destruct (imperfect_state_inv outer inner Hi Ho) as [Hpos _].
   apply fold_admit_has; try assumption; [apply adm_inv_init| |lia].
   apply in_map_iff. exists j. split; [lia|]. apply range1_In.
@@ -257,7 +257,7 @@ Proof.
   assert (Hst : adm_inv outer st).
   { apply fold_admit_inv; [assumption| |apply adm_inv_init].
     intros n Hn. apply in_map_iff in Hn. destruct Hn as [j [<- Hj]]. apply range1_In in Hj. nia. }
-  pose proof (try_admit_has outer st outer Ho Ho (Z.le_refl _) Hst) as H.
+  pose proof (try_take_has outer st outer Ho Ho (Z.le_refl _) Hst) as H.
   assert (E1 : cdiv outer outer = 1) by (unfold cdiv; nia).
   assert (E2 : cdiv outer 1 = outer) by (unfold cdiv; nia).
   rewrite E1, E2 in H. exact H.
